@@ -1,4 +1,6 @@
 \* C17 bounded model, quick tier (checks/c17.py enlarges it for the thorough tier). Letters: a A c C t - * and the non-ASCII byte 200.
+\* Slices as cases of their own: alphabets over a T; letters a, 0xC5, 0xA1, 0xB4, 0xE0 (C5 A1 = U+0161, C5 B4 = U+0174, E0 A1 A1 = U+0861, ...:
+\* well-formed UTF-8 whose code point has the low byte 'a' or 't'; every other arrangement of them is malformed).
 SPECIFICATION Spec
 CONSTANTS
   Variant = "intended"
@@ -11,9 +13,13 @@ CONSTANTS
   MaxCompPair = 2
   WordSample = {97, 65, 116, 45, 0, 200}
   MaxWord = 3
+  SliceDefSample = {97, 84}
+  MaxSliceDef = 2
+  SliceSample = {97, 197, 161, 180, 224}
+  MaxSlice = 5
 INVARIANTS
   BuiltinsConstruct BuiltinAlphabetLaws BuiltinComplementLaws NucleotideIndexComplement
-  AlphabetRejects AlphabetLaws AllValidLaw
+  AlphabetRejects AlphabetLaws AllValidLaw SliceLaw
   PairingRejects PairingLaws
   ComplementorLaws
   EmitCases
